@@ -1,6 +1,6 @@
 (* C10 - property theorems only.  A generator is any state machine
    (S, reseed, draw); the theorems hold for every one of them. *)
-From HV Require Import Prelude Stats C10_Model C10_Check C10_Proofs C10_Process.
+From HV Require Import Prelude Stats C10_Model C10_Check C10_Proofs C10_Process C10_Hash.
 From Coq Require Import PrimFloat SpecFloat FloatOps QArith Qabs.
 Open Scope Z_scope.
 
@@ -412,3 +412,140 @@ Example C10_store_blind_inhabited :
   /\ ~ store_blind Z Z unit Z lcg_reseed lcg_draw leaky_body.
 Proof. exact store_blind_inhabited_l. Qed.
 Print Assumptions C10_store_blind_inhabited.
+
+(* ---------------- the interpreter's string-hash seed (PYTHONHASHSEED).
+   A user's two runs are two interpreter processes; sets of strings iterate in another order in
+   each.  An interpreter process = hash seed + process; programs may look at the seed
+   ([hprog] = family of process programs indexed by it), nothing can write it. *)
+Theorem C10_hash_seed_fixed_per_interpreter :
+  forall (S D Rq M : Type) (reseed : Z -> S) (draw : Rq -> S -> D * S) (R : Type)
+         (p : hprog D Rq M R) (hist : list (hprog D Rq M unit)) (w : iproc S M),
+  ip_hash _ _ (snd (iexec S D Rq M reseed draw p w)) = ip_hash _ _ w
+  /\ ip_hash _ _ (irun_hist S D Rq M reseed draw hist w) = ip_hash _ _ w.
+Proof. exact hash_seed_fixed_l. Qed.
+Print Assumptions C10_hash_seed_fixed_per_interpreter.
+
+(* Sufficient: store-blind for every hash seed and hash-blind => the seeded command gives the same
+   output and leaves the same generator state in ANY two interpreters (any two hash seeds, any two
+   process states) after ANY two histories of arbitrary earlier programs (which may look at the
+   hash seed as well). *)
+Theorem C10_seeded_across_interpreters :
+  forall (S D Rq M : Type) (reseed : Z -> S) (draw : Rq -> S -> D * S) (O : Type)
+         (body : hprog D Rq M O) (k : Z),
+  (forall h, store_blind S D Rq M reseed draw (body h)) ->
+  hash_blind S D Rq M reseed draw body ->
+  forall (hist hist' : list (hprog D Rq M unit)) (w w' : iproc S M),
+    fst (iexec S D Rq M reseed draw (igeno_cmd D Rq M false (Some k) body) (irun_hist S D Rq M reseed draw hist w))
+    = fst (iexec S D Rq M reseed draw (igeno_cmd D Rq M false (Some k) body) (irun_hist S D Rq M reseed draw hist' w'))
+    /\ pr_gen _ _ (ip_proc _ _ (snd (iexec S D Rq M reseed draw (igeno_cmd D Rq M false (Some k) body)
+                                      (irun_hist S D Rq M reseed draw hist w))))
+       = pr_gen _ _ (ip_proc _ _ (snd (iexec S D Rq M reseed draw (igeno_cmd D Rq M false (Some k) body)
+                                        (irun_hist S D Rq M reseed draw hist' w')))).
+Proof. exact seeded_across_interpreters_l. Qed.
+Print Assumptions C10_seeded_across_interpreters.
+
+(* Necessary: equal outputs in every two interpreters that differ in nothing but the hash seed
+   force the simulation's output to be independent of the hash seed.  "Hash-blind" is therefore
+   exactly what the cross-interpreter stream of the double runs tests of the code. *)
+Theorem C10_across_interpreters_needs_hash_blind :
+  forall (S D Rq M : Type) (reseed : Z -> S) (draw : Rq -> S -> D * S) (O : Type)
+         (body : hprog D Rq M O) (k : Z),
+  (forall (w w' : iproc S M), ip_proc _ _ w = ip_proc _ _ w' ->
+      fst (iexec S D Rq M reseed draw (igeno_cmd D Rq M false (Some k) body) w)
+      = fst (iexec S D Rq M reseed draw (igeno_cmd D Rq M false (Some k) body) w')) ->
+  forall (h h' : Z) (m : M) (e : Z),
+    fst (exec S D Rq M reseed draw (body h) (mkproc S M (reseed k) m e))
+    = fst (exec S D Rq M reseed draw (body h') (mkproc S M (reseed k) m e)).
+Proof. exact across_interpreters_needs_hash_blind_l. Qed.
+Print Assumptions C10_across_interpreters_needs_hash_blind.
+
+Theorem C10_const_hash_blind :
+  forall (S D Rq M : Type) (reseed : Z -> S) (draw : Rq -> S -> D * S) (R : Type) (p : pprog D Rq M R),
+  hash_blind S D Rq M reseed draw (fun _ => p).
+Proof. exact const_hash_blind_l. Qed.
+Print Assumptions C10_const_hash_blind.
+
+(* Every simulator of the first section in any interpreter after any history: the output and the
+   generator state left are those of [run (P i) (reseed k)]. *)
+Theorem C10_lifted_across_interpreters :
+  forall (S D Rq M : Type) (reseed : Z -> S) (draw : Rq -> S -> D * S) (I O : Type)
+         (P : I -> prog D Rq O) (k : Z) (i : I) (hist : list (hprog D Rq M unit)) (w : iproc S M),
+  fst (iexec S D Rq M reseed draw (igeno_cmd D Rq M false (Some k) (fun _ => lift D Rq M (P i)))
+         (irun_hist S D Rq M reseed draw hist w))
+  = fst (run S D Rq draw (P i) (reseed k))
+  /\ pr_gen _ _ (ip_proc _ _ (snd (iexec S D Rq M reseed draw (igeno_cmd D Rq M false (Some k) (fun _ => lift D Rq M (P i)))
+                                    (irun_hist S D Rq M reseed draw hist w))))
+     = snd (run S D Rq draw (P i) (reseed k)).
+Proof. exact lifted_across_interpreters_l. Qed.
+Print Assumptions C10_lifted_across_interpreters.
+
+(* simulate_pt's `.snplist` selection `filter(lambda e: e.id in haplotype_ids, effects)`: two
+   requests with the same elements select the same effects in the same (file) order - for EVERY
+   iteration order of sets that keeps the elements, every two hash seeds, every two insertion
+   orders. *)
+Theorem C10_select_file_order_hash_blind :
+  forall (order : Z -> list Z -> list Z) (E : Type) (eid : E -> Z) (ins ins' : list Z) (effects : list E),
+  order_ok order -> (forall x, In x ins <-> In x ins') ->
+  forall h h', select_file_order eid (order h ins) effects = select_file_order eid (order h' ins') effects.
+Proof. exact select_file_order_any_interpreter_l. Qed.
+Print Assumptions C10_select_file_order_hash_blind.
+
+(* simphenotype with a seed and requested IDs: selected effects (column name, order of the sum) and
+   noise are the same in any two interpreters, after any two histories, for equal sets of IDs filled
+   in any two orders; the interpreter process is returned as found. *)
+Theorem C10_simphenotype_across_interpreters :
+  forall (S D Rq M : Type) (reseed : Z -> S) (draw : Rq -> S -> D * S) (order : Z -> list Z -> list Z)
+         (E : Type) (eid : E -> Z) (k : Z) (reqs : list Rq) (ins ins' : list Z) (effects : list E)
+         (hist hist' : list (hprog D Rq M unit)) (w w' : iproc S M),
+  order_ok order -> (forall x, In x ins <-> In x ins') ->
+  fst (iexec S D Rq M reseed draw (pheno_sel_cmd S D Rq M reseed draw order (select_file_order eid) (Some k) reqs ins effects)
+         (irun_hist S D Rq M reseed draw hist w))
+  = fst (iexec S D Rq M reseed draw (pheno_sel_cmd S D Rq M reseed draw order (select_file_order eid) (Some k) reqs ins' effects)
+         (irun_hist S D Rq M reseed draw hist' w'))
+  /\ snd (iexec S D Rq M reseed draw (pheno_sel_cmd S D Rq M reseed draw order (select_file_order eid) (Some k) reqs ins effects)
+            (irun_hist S D Rq M reseed draw hist w))
+     = irun_hist S D Rq M reseed draw hist w.
+Proof. exact simphenotype_across_interpreters_l. Qed.
+Print Assumptions C10_simphenotype_across_interpreters.
+
+Theorem C10_pheno_sel_cmd_noise_is_pheno_cmd :
+  forall (S D Rq M : Type) (reseed : Z -> S) (draw : Rq -> S -> D * S) (order : Z -> list Z -> list Z)
+         (E : Type) (select : list Z -> list E -> list E) (seed : option Z) (reqs : list Rq) (ins : list Z)
+         (effects : list E) (w : iproc S M),
+  snd (fst (iexec S D Rq M reseed draw (pheno_sel_cmd S D Rq M reseed draw order select seed reqs ins effects) w))
+  = fst (exec S D Rq M reseed draw (pheno_cmd S D Rq M reseed draw seed reqs) (ip_proc _ _ w)).
+Proof. exact pheno_sel_cmd_noise_l. Qed.
+Print Assumptions C10_pheno_sel_cmd_noise_is_pheno_cmd.
+
+(* Selection in the iteration order of the SET of requested IDs refuted on a toy order (even hash
+   seed: insertion order, odd: reversed): same seed and inputs, (1) two interpreters, (2) one
+   interpreter and two equal sets filled in different orders - different outputs; selection by
+   membership: equal; (3) a simulation iterating a set: different in the other interpreter. *)
+Example C10_set_order_refuted :
+  let eff := [(1, 10); (2, 20); (3, 30)] in
+  let w0 := mkproc Z Z 5 0 0 in
+  let by_set := select_set_order (E := Z * Z) fst in
+  let by_file := select_file_order (E := Z * Z) fst in
+  let cmd sel ins := pheno_sel_cmd Z Z unit Z lcg_reseed lcg_draw toy_order sel (Some 1) [tt] ins eff in
+  fst (iexec Z Z unit Z lcg_reseed lcg_draw (cmd by_set [1; 2]) (mkiproc Z Z 0 w0))
+  <> fst (iexec Z Z unit Z lcg_reseed lcg_draw (cmd by_set [1; 2]) (mkiproc Z Z 1 w0))
+  /\ fst (iexec Z Z unit Z lcg_reseed lcg_draw (cmd by_set [1; 2]) (mkiproc Z Z 0 w0))
+     <> fst (iexec Z Z unit Z lcg_reseed lcg_draw (cmd by_set [2; 1]) (mkiproc Z Z 0 w0))
+  /\ fst (iexec Z Z unit Z lcg_reseed lcg_draw (cmd by_file [1; 2]) (mkiproc Z Z 0 w0))
+     = fst (iexec Z Z unit Z lcg_reseed lcg_draw (cmd by_file [2; 1]) (mkiproc Z Z 1 w0))
+  /\ fst (iexec Z Z unit Z lcg_reseed lcg_draw (igeno_cmd Z unit Z false (Some 1) set_iter_body) (mkiproc Z Z 0 w0))
+     <> fst (iexec Z Z unit Z lcg_reseed lcg_draw (igeno_cmd Z unit Z false (Some 1) set_iter_body) (mkiproc Z Z 1 w0))
+  /\ fst (iexec Z Z unit Z lcg_reseed lcg_draw (igeno_cmd Z unit Z false (Some 1) (fun _ => clean_body)) (mkiproc Z Z 0 w0))
+     = fst (iexec Z Z unit Z lcg_reseed lcg_draw (igeno_cmd Z unit Z false (Some 1) (fun _ => clean_body)) (mkiproc Z Z 1 w0)).
+Proof. exact set_order_refuted_l. Qed.
+Print Assumptions C10_set_order_refuted.
+
+(* the hypotheses of C10_seeded_across_interpreters / C10_simphenotype_across_interpreters are
+   satisfiable, and hash-blindness is not trivial (set_iter_body fails it) *)
+Example C10_hash_blind_inhabited :
+  hash_blind Z Z unit Z lcg_reseed lcg_draw (fun _ => clean_body)
+  /\ (forall h : Z, store_blind Z Z unit Z lcg_reseed lcg_draw ((fun _ => clean_body) h))
+  /\ ~ hash_blind Z Z unit Z lcg_reseed lcg_draw set_iter_body
+  /\ order_ok toy_order.
+Proof. exact hash_blind_inhabited_l. Qed.
+Print Assumptions C10_hash_blind_inhabited.
